@@ -1529,6 +1529,8 @@ def build_models():
         np.cos: _elementwise(lambda it, x: ops.mcos(it.ctx, x, True), np.cos),
         np.sqrt: _elementwise(lambda it, x: ops.msqrt(it.ctx, x, True), np.sqrt),
         np.sign: _elementwise(lambda it, x: ops.msign(it.ctx, x), np.sign),
+        np.arctan: lambda it, a, k: ops.matan(it.ctx, a[0], True) if type(a[0]) is Sym else np.arctan(a[0]),
+        math.atan: lambda it, a, k: ops.matan(it.ctx, a[0]) if type(a[0]) is Sym else math.atan(a[0]),
         np.arctan2: lambda it, a, k: ops.matan2(it.ctx, a[0], a[1], True) if (type(a[0]) is Sym or type(a[1]) is Sym) else np.arctan2(a[0], a[1]),
         np.hypot: lambda it, a, k: ops.mhypot(it.ctx, a[0], a[1], True) if (type(a[0]) is Sym or type(a[1]) is Sym) else np.hypot(a[0], a[1]),
         np.fmod: _np_fmod,
